@@ -9,7 +9,9 @@
 (* (alone or as part of a slice).  One `Call` is one __next__: the loop    *)
 (* "while not cache and i < stop" with slice read-ahead of bs elements,    *)
 (* exponential back-off bs := max(bs \div 4, 1) on error, and - once bs    *)
-(* is 1 - skipping the failing position and raising.                       *)
+(* is 1 - skipping the failing position and raising.  Data that supports   *)
+(* integer indices only (sliceable = FALSE) fails every slice read, also   *)
+(* one whose clipped length is 1.                                          *)
 (*                                                                         *)
 (* Properties: the calls return exactly the good positions of              *)
 (* [start, stop) in order, every bad position raises exactly once, at its  *)
@@ -21,11 +23,12 @@ EXTENDS Integers, Sequences, FiniteSets, TLC, Json
 CONSTANTS MaxLen, Batches, MaxBad
 
 VARIABLES len, start, stop, bad, bs0,
+          sliceable,    \* FALSE: the data supports integer indices only, every slice read fails
           i, bs, cache,
           touched,      \* positions read so far
           out,          \* results of the calls so far: a position, -1 = raised, -2 = StopIteration
           hist
-vars == <<len, start, stop, bad, bs0, i, bs, cache, touched, out, hist>>
+vars == <<len, start, stop, bad, bs0, sliceable, i, bs, cache, touched, out, hist>>
 
 Min(a, b) == IF a < b THEN a ELSE b
 Max(a, b) == IF a > b THEN a ELSE b
@@ -37,7 +40,7 @@ Fill(ci, cbs, ccache, ct) ==
   IF ccache # <<>> \/ ci >= stop THEN [i |-> ci, bs |-> cbs, cache |-> ccache, touched |-> ct, raised |-> FALSE]
   ELSE LET n == IF cbs > 1 THEN Min(ci + cbs, stop) - ci ELSE cbs
            rd == ci..(ci + n - 1)
-       IN IF rd \cap bad = {}
+       IN IF rd \cap bad = {} /\ (cbs > 1 => sliceable)
           THEN Fill(ci + n, cbs, Rows(ci, ci + n), ct \cup rd)
           ELSE IF cbs = 1
                THEN [i |-> ci + 1, bs |-> cbs, cache |-> ccache, touched |-> ct \cup rd, raised |-> TRUE]
@@ -47,7 +50,7 @@ Init ==
   /\ len \in 0..MaxLen
   /\ start \in 0..len /\ stop \in 0..len /\ start <= stop
   /\ bad \in {s \in SUBSET (0..(len - 1)) : Cardinality(s) <= MaxBad}
-  /\ bs \in Batches /\ bs0 = bs
+  /\ bs \in Batches /\ bs0 = bs /\ sliceable \in BOOLEAN
   /\ i = start /\ cache = <<>> /\ touched = {} /\ out = <<>> /\ hist = <<>>
 
 Call ==
@@ -60,7 +63,7 @@ Call ==
                THEN cache' = Tail(f.cache) /\ out' = Append(out, Head(f.cache))
                ELSE cache' = f.cache /\ out' = Append(out, -2)
        /\ hist' = Append(hist, out'[Len(out')])
-  /\ UNCHANGED <<len, start, stop, bad, bs0>>
+  /\ UNCHANGED <<len, start, stop, bad, bs0, sliceable>>
 
 Next == Call
 Spec == Init /\ [][Next]_vars
@@ -75,7 +78,7 @@ StopOnlyAtEnd == \A j \in 1..Len(out) : out[j] = -2 => Len(SelectSeq(SubSeq(out,
 Complete == Len(out) = (stop - start) + 2 => (Results = Expected /\ out[Len(out)] = -2 /\ out[Len(out) - 1] = -2)
 
 Emit == Len(out) = (stop - start) + 2 =>
-  PrintT(<<"H", ToJson([len |-> len, start |-> start, stop |-> stop, bad |-> bad, bs |-> bs0,
+  PrintT(<<"H", ToJson([len |-> len, start |-> start, stop |-> stop, bad |-> bad, bs |-> bs0, sliceable |-> sliceable,
                          results |-> hist])>>)
-View == <<len, start, stop, bad, bs0, i, bs, cache, touched, out>>
+View == <<len, start, stop, bad, bs0, sliceable, i, bs, cache, touched, out>>
 =============================================================================
